@@ -1,6 +1,10 @@
 package props
 
-import "verif.local/mc/coop"
+import (
+	"strings"
+
+	"verif.local/mc/coop"
+)
 
 func boundsFor(tier string) map[string]int {
 	if tier == "thorough" {
@@ -22,7 +26,10 @@ func withFault(b map[string]int) map[string]int {
 }
 
 func ipamConcurrentScenarios(tier string, cloud bool) []*Scenario {
-	b := boundsFor(tier)
+	return ipamConcurrentScenariosB(tier, cloud, boundsFor(tier))
+}
+
+func ipamConcurrentScenariosB(tier string, cloud bool, b map[string]int) []*Scenario {
 	var sc []*Scenario
 	sc = append(sc, famRecreate(cloud, b, "")...)
 	sc = append(sc, famContend(cloud, b)...)
@@ -42,6 +49,21 @@ func ipamConcurrentScenarios(tier string, cloud bool) []*Scenario {
 		s.Name += "+fault"
 		sc = append(sc, s)
 	}
+	// recreate + a third party competing for the address (needed to turn a wrong release into a double hand-out)
+	ob := map[string]int{}
+	for k, v := range b {
+		ob[k] = v
+	}
+	if tier != "thorough" {
+		ob["preempt"] = 2
+	}
+	for _, s := range famRecreate(cloud, ob, "other") {
+		if strings.Contains(s.Name, "finish+delete") && tier != "thorough" {
+			continue
+		}
+		s.Weight = 6
+		sc = append(sc, s)
+	}
 	if tier == "thorough" {
 		sc = append(sc, famRecreate(cloud, b, "syncpodips")...)
 		sc = append(sc, famRecreate(cloud, b, "run-new")...)
@@ -50,7 +72,12 @@ func ipamConcurrentScenarios(tier string, cloud bool) []*Scenario {
 }
 
 func exploreProperty(id, level, rule string, assume []string, cloud bool, oracle Oracle, quickS, thoroughS int) {
-	scens := func(tier string) []*Scenario { return ipamConcurrentScenarios(tier, cloud) }
+	scens := func(tier string) []*Scenario {
+		if id == "C10" {
+			return c10Scenarios(tier)
+		}
+		return ipamConcurrentScenarios(tier, cloud)
+	}
 	register(&Property{ID: id, Level: level, Rule: rule, Assume: assume, QuickS: quickS, ThoroughS: thoroughS,
 		Jobs: func(tier string) []Job {
 			var jobs []Job
@@ -78,4 +105,20 @@ func init() {
 	exploreProperty("C01", "exploration", ruleExplore, assumeIPAM, false, oracleC01, 100, 1200)
 	exploreProperty("C04", "exploration", ruleExplore, assumeIPAM, true, oracleC04, 100, 1200)
 	exploreProperty("C10", "exploration", ruleExplore, assumeIPAM, true, oracleC10, 100, 1200)
+}
+
+// c10Scenarios: the shared families with a recording provider, one clean provider failure (retried by the caller) and a
+// free node choice (pods move between nodes of the same subnet), plus sequential move histories.
+func c10Scenarios(tier string) []*Scenario {
+	b := map[string]int{"preempt": 1, "cloudfail": 1, "node": 1}
+	if tier == "thorough" {
+		b = map[string]int{"preempt": 2, "cloudfail": 1, "node": 1, "fault": 1}
+	}
+	var sc []*Scenario
+	sc = append(sc, famRecreate(true, b, "")...)
+	sc = append(sc, famRolling(true, b)...)
+	sc = append(sc, famContend(true, b)...)
+	sc = append(sc, famAPIRelease(true, b)...)
+	sc = append(sc, famMove(b)...)
+	return sc
 }
